@@ -109,6 +109,8 @@ class State:
         s.assumed = list(self.assumed)
         s.trace = list(self.trace)
         s.snaps = dict(self.snaps)
+        if hasattr(self, "final_params"):
+            s.final_params = self.final_params
         return s
 
     def assume(self, f):
